@@ -260,10 +260,10 @@ def clauses(tier):
     return [
         Clause("stft_chunked", check_chunked,
                "non-trivial = >= 2 non-empty chunks, >= 1 frame and a cut that is not a multiple of frame_shift",
-               _stft_cases, quick=700, thorough=30000),
+               _stft_cases, quick=700, thorough=30000, fuzz_runs=2500),
         Clause("si_chunked", check_chunked,
                "as stft_chunked, short-integration computers inside the frame-shift precondition",
-               _si_cases, quick=300, thorough=12000),
+               _si_cases, quick=300, thorough=12000, fuzz_runs=2500),
         Clause("frame_by_frame", check_fbf,
                "frame_by_frame_calculation with drawn chunk_size vs compute_full; non-trivial = >= 2 chunks, >= 1 frame, chunk_size not a multiple of frame_shift",
                _fbf_cases, quick=150, thorough=6000),
